@@ -20,7 +20,7 @@ import (
 func init() { register("C18", "exploration", c18) }
 
 func c18(run *ev.Run) int {
-	run.SetRule("domains: code text round trip over all 2^32 values in the thorough tier (quick: 0..2^20, +-2^10 around every power of two, top 2^20, 2^20 seeded random), the 16 names, rejection of non-names; percent-encoding round trip / printable-ASCII alphabet / decoder totality over all byte strings up to length 2 (3 thorough) and random long ones, in-package on the pinned helpers and through Grpc-Message recorded from ServeHTTP; binary-header round trips over all byte strings up to length 2 (3); code -> HTTP status through a unary Connect handler for codes 0..65535 plus random 32-bit codes; distinct by (codec, domain stratum)")
+	run.SetRule("domains: code text round trip over all 2^32 values in the thorough tier (quick: 0..2^20, +-2^10 around every power of two, top 2^20, 2^20 seeded random), the 16 names, rejection of non-names; percent-encoding round trip / printable-ASCII alphabet / decoder totality over all byte strings up to length 2 (3 thorough) and random long ones, in-package on the pinned helpers and through Grpc-Message recorded from ServeHTTP; binary-header round trips over all byte strings up to length 2 (3); code -> HTTP status through a unary Connect handler for codes 0..65535 plus random 32-bit codes; distinct by (codec, domain stratum); also: Grpc-Message for messages of 1.3-20 KiB")
 	c18Codes(run)
 	c18CodeRejection(run)
 	c18GRPCMessage(run)
